@@ -339,7 +339,9 @@ def subst(t, env):
         return ("opt", subst(t[1], env))
     if k == "union":
         # yardl derives tags at the definition, before type arguments are known
-        return ("union", tuple((tag if (tag is not None or c is None) else default_tag(c), subst(c, env)) for tag, c in t[1]))
+        cases = tuple((tag if (tag is not None or c is None) else default_tag(c), subst(c, env)) for tag, c in t[1])
+        generic = len(t) > 2 or any(c is not None and c[0] == "tparam" for _, c in t[1])
+        return ("union", cases, "generic") if generic else ("union", cases)
     if k == "vec":
         return ("vec", subst(t[1], env), t[2])
     if k == "arr":
@@ -381,7 +383,7 @@ def resolve(pkg, t):
         if len(cases) == 1:
             return resolve(pkg, cases[0][1])
         return ("union", tuple((tag if tag is not None else (default_tag(c) if c is not None else None),
-                                resolve(pkg, c)) for tag, c in cases))
+                                resolve(pkg, c)) for tag, c in cases)) + t[2:]
     if k == "vec":
         return ("vec", resolve(pkg, t[1]), t[2])
     if k == "arr":
